@@ -193,3 +193,18 @@ func init() {
 		}
 	}
 }
+
+// atomicCompOf: the A_<Type> component that models values of a sync/atomic typed
+// variable of type t ("" if t is not one).
+func (x *Exec) atomicCompOf(t types.Type) string {
+	n, ok := t.(*types.Named)
+	if !ok || n.Obj().Pkg() == nil || n.Obj().Pkg().Path() != "sync/atomic" {
+		return ""
+	}
+	ai, ok := x.atomInfoOf(n.Obj().Name())
+	if !ok {
+		return ""
+	}
+	x.comp(ai.comp, ai.sort)
+	return ai.comp
+}
